@@ -37,9 +37,9 @@ CHECKS = {
          "the terminal matches at a label word iff the whole word is a listed name (order of alternatives irrelevant). User-registered names and "
          "rejection through _replacement: bounded end-to-end.", "Lark's contextual lexer trusted; load_additional_decay_models bounded only.",
          "lexical lemma (z3 arrays); bounded: registered-name families", "5/C06"),
- "C07": ("other", "Ten of the declaration getters are proved for every well-formed tree (every statement accounted for, verbatim, later wins, "
+ "C07": ("other", "Eleven of the declaration getters are proved for every well-formed tree (every statement accounted for, verbatim, later wins, "
          "sorted CDecay list as a permutation, last PHOTOS flag); the rest and the text->tree step are bounded against the reference reader.",
-         "get_pythia/jetset/lineshape-settings getters: bounded only so far; the default width looked up in the particle table is not specified.", "bounded: parse vs reference reader", "5/C07"),
+         "get_jetset_definitions and get_lineshape_settings: bounded only so far; the default width looked up in the particle table is not specified.", "bounded: parse vs reference reader", "5/C07"),
  "C08": ("other", "Bounded: copies/derived tables share no object with their source (white-box disjointness), exhaustive query/mutation/query pairs "
          "and random histories compared with a fresh instance. Proof: _add_decays_to_be_copied and _add_charge_conjugate_decays (added tables are "
          "fresh deep copies sharing no mutable node with what existed; old tables untouched), build_decay_chains and the queries under contract "
